@@ -182,20 +182,36 @@ def sweep_state_machine():
 
 
 # ---------------------------------------------------------------------------
-def check_iteration(par):
-    """list(pipeline.values) visits every operator once, parents first."""
-    p, ops = build(par)
-    order = list(p.values)
+def _check_order(par, ops, order, when):
     idx = {id(o): i for i, o in enumerate(ops)}
     seq = [idx.get(id(o)) for o in order]
     if sorted(x for x in seq if x is not None) != list(range(len(ops))) or len(seq) != len(ops):
-        raise Violation("C01.iteration.not_a_permutation", {"par": par, "visited": seq})
+        raise Violation("C01.iteration.not_a_permutation", {"par": par[:len(ops)], "visited": seq, "when": when})
     pos = {o: k for k, o in enumerate(seq)}
-    for i, pi in enumerate(par):
+    for i, pi in enumerate(par[:len(ops)]):
         for q in pi:
             if pos[q] > pos[i]:
-                raise Violation("C01.iteration.child_before_parent", {"par": par, "visited": seq, "child": i, "parent": q})
+                raise Violation("C01.iteration.child_before_parent", {"par": par[:len(ops)], "visited": seq, "child": i,
+                                                                      "parent": q, "when": when})
     return seq
+
+
+def check_iteration(par):
+    """list(pipeline.values) visits every operator once, parents first - after every insertion (every prefix of
+    the construction history is itself a DAG; an iteration must not be disturbed by earlier iterations), and twice
+    in a row at the end."""
+    import_repo()
+    from eudoxia.workload import Pipeline
+    from eudoxia.utils import Priority
+    p = Pipeline("w", Priority.BATCH_PIPELINE)
+    ops = []
+    for k, pi in enumerate(par):
+        ops.append(p.new_operator([ops[j] for j in pi] or None))
+        _check_order(par, ops, list(p.values), "after adding node %d" % k)
+    _check_order(par, ops, list(p.values), "second iteration")
+    it = iter(p.values)
+    next(it)
+    return _check_order(par, ops, list(p.values), "while another iterator is open")
 
 
 def sweep_dags(max_n=6):
